@@ -6,6 +6,10 @@ props = [json.loads(l) for l in open(os.path.join(V, 'properties.jsonl'))]
 
 # id -> (level, engine, technique, level text, level note, design_ref)
 CHECKS = {
+ 'C12': ('model_checking', 'E1-sched', 'preemption-bounded stateless DFS (CHESS-style) over interleavings of the real split add / commit / cancel call sequences at store-call granularity + crash-point enumeration with retry, in a synctest bubble',
+         'The implementation is the protocol model: 7 closed scenarios (commit||commit, commit||cancel, split add||commit, run||rerun of one split, crash+rerun, commit crash+retry, cancel crash+retry); every interleaving with <=2 (thorough 3) preemptions and every crash point (before/after each store write) is executed; invariants I1..I5 and late-actor refusal are evaluated on every end state.',
+         'Blob store ungated (content-addressed, idempotent, never read by protocol decisions); 2 actors per scenario; goroutine interleavings finer than a store call inside one process are not enumerated (canonical order).',
+         'DESIGN.md §3 C12'),
  'C11': ('model_checking', 'E1-sched', 'stateless DFS over all arrival permutations of split index-file reads of the real Diamond.Commit in a synctest bubble, for every content assignment x mode; specification oracle + differential across orders',
          'Every assignment of {absent,h1,h2(,h3)} to (split,path) for 1..3 splits x 2 paths (4 splits x 1 path) x 4 modes x both ID orders; for each, every permutation of index-file arrivals is executed on the real commit code and compared with the merge specification and with each other.',
          'One index file per split (splits of <1000 files); upload times strictly increasing by one fake second; known findings listed in known_findings.json are reported, not failed.',
